@@ -313,4 +313,53 @@ theorem norm2_flat (t : PTree ℝ) :
   exact abs_mul_abs_self x
 
 
+section whereflat
+variable {α : Type}
+
+/-- `tree_map(jnp.where, c, x, y)` on equally structured trees is `np.where` on the concatenated flat arrays -/
+theorem where_flat_trees (c : PTree Bool) (x y : PTree α) (p : PTree (α × α)) (r : PTree α)
+    (h1 : map₂ (fun a b => (a, b)) x y = some p)
+    (h2 : map₂ (fun (b : Bool) (q : α × α) => if b then q.1 else q.2) c p = some r) :
+    r.flatten = List.zipWith (fun (b : Bool) (q : α × α) => if b then q.1 else q.2) c.flatten
+      (List.zipWith (fun a b => (a, b)) x.flatten y.flatten) := by
+  rw [(flatten_map₂ _ c p r h2).2, (flatten_map₂ _ x y p h1).2]
+
+theorem ok_of_guarded {β : Type} (p q : Prop) [Decidable p] [Decidable q] (t t' : β)
+    (h : (Except.ok t' : Except OpErr β) =
+      (if p then (if q then Except.error OpErr.valueError else Except.error OpErr.valueError) else Except.ok t)) : t' = t := by
+  by_cases hp : p
+  · by_cases hq : q <;> simp [hp, hq] at h
+  · simp [hp] at h; exact h
+
+/-- `where(c, x, y)` with three tree operands: whenever the model of vector_math.where succeeds, the result is the
+    flat selection -/
+theorem whereOp_flat (c : PTree Bool) (x y : PTree α) (r : PTree α)
+    (h : whereOp (.tree c) (.tree x) (.tree y) = .ok r) :
+    r.flatten = List.zipWith (fun (b : Bool) (q : α × α) => if b then q.1 else q.2) c.flatten
+      (List.zipWith (fun a b => (a, b)) x.flatten y.flatten) := by
+  unfold whereOp at h
+  simp only [] at h
+  split at h
+  · rename_i tc tx ty hc hx hy
+    have ec : tc = c := ok_of_guarded _ _ _ _ hc.symm
+    have ex : tx = x := ok_of_guarded _ _ _ _ hx.symm
+    have ey : ty = y := ok_of_guarded _ _ _ _ hy.symm
+    subst ec ex ey
+    cases hp : map₂ (fun a b => (a, b)) tx ty with
+    | none =>
+      simp only [hp] at h
+      split at h <;> simp at h
+    | some p =>
+      simp only [hp] at h
+      split at h
+      · rename_i r' hr'
+        simp at h
+        subst h
+        exact where_flat_trees tc tx ty p r' hp hr'
+      · simp at h
+  · simp at h
+
+
+end whereflat
+
 end NiftyVerif.Pytree
